@@ -322,15 +322,18 @@ def verticalDest (buf : Text) (pos n : Nat) (up : Bool) : Option (Nat × Nat) :=
       let e := downEnd buf n (lineEndOf buf pos)
       some (lineStartOf buf e, e)
 
+/-- where a vertical motion lands in its destination line `[ds, de)`: the FIRST cluster boundary of that
+    line (its start and its end included) whose display column is at or right of the display column `c`
+    the cursor came from; the line end when there is none (line too short).  So: the boundary at
+    exactly column `c` when there is one (the first of them when zero-width clusters follow it); when a
+    wide cluster straddles column `c`, the boundary just after that cluster (as Emacs' `move-to-column`
+    does); the line start when the prompt already pushes it right of `c`. -/
+def verticalTarget (S : Segmenter) (U : UData) (buf : Text) (ds de : Nat) (line : Text) (promptCol c : Nat) : Nat :=
+  ((bounds ds (S.seg line)).find? (fun q => displayCol U buf q promptCol ≥ c)).getD de
+
 /-- vertical motion keeps the display column: `none` = satisfied or not judged, else a reason.
     Counts of 0 are not judged.  Without a destination line the cursor must not move.  Otherwise the
-    new cursor `pos` must be a cluster boundary of the destination line `[ds, de)` and either
-    * it has the display column the cursor had, or
-    * it is the end of the destination line and that line is too short to reach the column, or
-    * it is the start of the destination line and that start already lies right of the column
-      (only possible on the first line, which is shifted by the prompt).
-    When none of the three kinds of position exists (the column falls inside a wide cluster of the
-    destination line) the step is not judged. -/
+    new cursor must be `verticalTarget` of the destination line for the display column of the old cursor. -/
 def checkVerticalCol (S : Segmenter) (U : UData) (old : LB) (n : Nat) (up : Bool) (promptCol pos : Nat) :
     Option String :=
   if n == 0 then none
@@ -342,18 +345,7 @@ def checkVerticalCol (S : Segmenter) (U : UData) (old : LB) (n : Nat) (up : Bool
       | .error _ => none
       | .ok line =>
         let c := displayCol U old.buf old.pos promptCol
-        if !(bounds ds (S.seg line)).contains pos then some "vertical-off-cluster-boundary"
-        else if displayCol U old.buf pos promptCol == c then none
-        else if pos == de && displayCol U old.buf de promptCol < c then none
-        else if pos == ds && displayCol U old.buf ds promptCol > c then none
-        -- judged only when a right answer exists: a cluster boundary of the line at that column, or the
-        -- line is too short (its end), or it starts right of the column (its start); a column that
-        -- falls inside a wide cluster of the destination line is not judged
-        else if (bounds ds (S.seg line)).any (fun q => displayCol U old.buf q promptCol == c)
-            || displayCol U old.buf de promptCol < c || displayCol U old.buf ds promptCol > c then
-          some "vertical-wrong-column"
-        else none
-
+        if pos != verticalTarget S U old.buf ds de line promptCol c then some "vertical-wrong-column" else none
 
 /-- `edit_word`: the next word (maximal run of alphanumeric clusters at or after the cursor) is
     replaced by its case-mapped form, nothing else changes, cursor after it -/
